@@ -25,7 +25,7 @@ func runC14(c *Ctx) {
 	}
 	c14Lexemes(c)
 	c14ReturnsStored(c)
-	c14Keywords(c)
+	c14Keywords(c, "C14.keywords")
 	c14FastPath(c, "C14.fastpath-agrees")
 	c14PeekHelpers(c, "C14.peek-helpers")
 	c14TriviaStep(c)
@@ -313,8 +313,7 @@ func c14ReturnsStored(c *Ctx) {
 	c.R.Floor(rule, 15)
 }
 
-func c14Keywords(c *Ctx) {
-	const rule = "C14.keywords"
+func c14Keywords(c *Ctx, rule string) {
 	// tokens[k] strings from the package initializer
 	tab := c.globalStringTable("tokens")
 	if tab == nil {
@@ -488,9 +487,27 @@ func c14Keywords(c *Ctx) {
 			}
 			if u, ok := call.Call.Args[0].(*ssa.UnOp); ok && isScannerField(u.X, "tokenValue") {
 				argOK = true
+				return
+			}
+			// ... or on a local that is the token value: the very value is stored into the token value before the
+			// lookup, or on every path from the lookup to the return (a keyword is a legal member name: its token
+			// needs its text just as an identifier does)
+			v := call.Call.Args[0]
+			isStore := func(x ssa.Instruction) bool {
+				st, ok := x.(*ssa.Store)
+				return ok && isScannerField(st.Addr, "tokenValue") && st.Val == v
+			}
+			dominated := false
+			instrs(git, func(_ *ssa.BasicBlock, _ int, x ssa.Instruction) {
+				if isStore(x) && instrDominates(x, in) {
+					dominated = true
+				}
+			})
+			if dominated || !pathExists(git, in, isReturn, isStore, nil) {
+				argOK = true
 			}
 		})
-		c.R.Check(rule, "identifier-lookup-arg", c.P.Pos(git.Pos()), argOK, "the keyword lookup must be made on the scanned token value")
+		c.R.Check(rule, "identifier-lookup-arg", c.P.Pos(git.Pos()), argOK, "the keyword lookup must be made on the scanned token value (the text that is looked up is the text the token carries, on the keyword path too)")
 		// on identifier input the folded Scan reaches getIdentifierToken and stores tokenValue = text[tokenPos:pos]
 		o := c.ScanOn("a ")
 		reached := false
